@@ -162,6 +162,11 @@ def gen_expr(rng, nxti, nprev, depth=0):
     def cref():
         return "%d %d %d %d" % (rng.choice([0, 1, 9, 65535, 1048575]), rng.choice([0, 1, 25, 26, 255, 16383]),
                                 int(rng.random() < 0.3), int(rng.random() < 0.3))
+    if nxti and depth < 2 and r < 0.12:
+        # as Excel writes Print_Titles / a multi-area Print_Area: PtgMemFunc (or PtgMemArea) in front of a union
+        return "mem %s %s %d bin %d %s %s" % (rng.choice("rva"), rng.choice(["func", "func", "area", "nomem", "err"]),
+                                              rng.choice([0, 0, 0x17, 0xDEADBEEF]), rng.choice([16, 16, 15, 17]),
+                                              gen_expr(rng, nxti, 0, 2), gen_expr(rng, nxti, 0, 2))
     if nxti and r < 0.35:
         return "ref3 %s %d %s" % (rng.choice("rva"), rng.randrange(nxti), cref())
     if nxti and r < 0.6:
@@ -204,10 +209,25 @@ def xlsb_case(rng, cid):
              ("rIdT", "theme/theme1.xml", mg.NS_REL + "/theme")][:rng.randrange(3)]
     rng.shuffle(rels)
     nxti = rng.choice([0, n, n, 2 * n]) if n else 0
-    xtis = [(0, j, j) for j in (rng.randrange(n) for _ in range(nxti))]
+    # the EXTERNALS block: the supporting links — BrtSupSelf, BrtSupSame, BrtSupAddin, BrtSupBookSrc (another
+    # workbook) — any number of them in any order; XTI.iSupBook counts them.  An XTI names a sheet or a span of
+    # sheets First:Last of THIS workbook exactly when its link is BrtSupSelf / BrtSupSame (seed C16-I: an
+    # add-in link in front of BrtSupSelf)
+    links = rng.choice([["self"], ["self"], ["self", "ext"], ["addin", "self"], ["ext", "addin", "self"],
+                        ["same", "ext", "self"], ["ext", "self", "addin", "ext"], ["addin", "addin", "ext", "self", "same"]])
+    if rng.random() < 0.3:
+        links = list(links); rng.shuffle(links)
+    local = [i for i, l in enumerate(links) if l in ("self", "same")]
+    def isup():
+        if rng.random() < 0.93:
+            return rng.choice(local)
+        return rng.choice([i for i in range(len(links) + 1) if i not in local])     # not in the domain
+    xtis = [(isup(), j, j if rng.random() < 0.7 else rng.randrange(n)) for j in (rng.randrange(n) for _ in range(nxti))]
+    link_args = ["%s:%s" % (l, ((struct.pack("<I", 5 + len(str(i))) + ("rIdE%d" % i).encode("utf-16le")).hex() if l == "ext" else "-")) for i, l in enumerate(links)]
     names = []
     for j, dn in enumerate(wb["dnames"]):
-        names.append(":".join([hxs(dn), gen_expr(rng, len(xtis), j), str(rng.choice([0, 1, 0x20])),
+        # PtgName indexes the whole name table: forward references (Excel stores the names sorted) as well
+        names.append(":".join([hxs(dn), gen_expr(rng, len(xtis), len(wb["dnames"])), str(rng.choice([0, 1, 0x20])),
                                str(rng.choice([0, 65])), str(rng.choice([4294967295, 0, 1]))]))
     junk1 = rng.choice([[], [], [(128, bytes(range(20)))],
                         [(135, b""), (158, bytes(29)), (136, b"")],
@@ -221,8 +241,8 @@ def xlsb_case(rng, cid):
     args = [str(int(wb["d1904"])), str(int(rng.random() < 0.5)), str(rng.choice([0, 0, 1, 64, 127])),
             (struct_pack_prop(rng)).hex() or "-", recs_wire(junk1), recs_wire(junk2), str(endt),
             tail.hex(), lst(["%s:%s:%s" % (hx(a), hx(b), hxs(t)) for a, b, t in rels]), lst(sheets),
-            lst(["%d:%d:%d" % x for x in xtis]), lst(names)]
-    return {"id": cid, "fmt": "xlsb", "wb": wb, "line": "%s\tmeta\txlsb\t%s" % (cid, "\t".join(args)),
+            lst(link_args), lst(["%d:%d:%d" % x for x in xtis]), lst(names)]
+    return {"id": cid, "fmt": "xlsb", "links": links, "xtis": xtis, "wb": wb, "line": "%s\tmeta\txlsb\t%s" % (cid, "\t".join(args)),
             "parts": parts, "cells": cells_of, "nonconv": nonconv}
 
 
@@ -261,7 +281,21 @@ def xls_case(rng, cid, known_ok=True):
         sheets.append(":".join([hxs(name), v, k, str(pos[i]), str(wide),
                                 str(rng.choice([0, 0, 1, 3, 16, 32, 63, rng.randrange(64)]))]))
     nxti = rng.choice([n, n, 2 * n]) if n else 0
-    xtis = [(0, j, j) for j in (rng.randrange(n) for _ in range(nxti))]
+    if n and rng.random() < 0.05:
+        nxti = rng.choice([1371, 1380, 2745])          # more than one ExternSheet record holds (audit 2, XLS-5)
+    # an XTI names a sheet or a span of sheets First:Last (itabLast another sheet; now and then a value that is
+    # no sheet: the reference then reads as its first sheet)
+    xtis = [(0, j, j if rng.random() < 0.7 else rng.choice([rng.randrange(n), rng.randrange(n), n + 3, 65535]))
+            for j in (rng.randrange(n) for _ in range(nxti))]
+    # how the XTI array is cut into the ExternSheet record and its CONTINUE records (anywhere, also inside an XTI)
+    nb_ = 6 * len(xtis)
+    if nb_ > 8220:
+        xcuts = [8220] * ((nb_ - 1) // 8220)
+    elif xtis and rng.random() < 0.3:
+        cs_ = sorted(rng.randrange(0, nb_ + 1) for _ in range(rng.choice([1, 1, 2, 3])))
+        xcuts = [b_ - a_ for a_, b_ in zip([0] + cs_, cs_)]
+    else:
+        xcuts = []
     names = []
     dn = wb["dnames"] if xtis else []
     wb["dnames"] = dn
@@ -270,22 +304,48 @@ def xls_case(rng, cid, known_ok=True):
     dn = [("_xlnm." + rng.choice(XLS_BUILTIN)) if rng.random() < 0.25 else nm for nm in dn]
     dn = [nm for i, nm in enumerate(dn) if nm not in dn[:i]]
     wb["dnames"] = dn
+    def xcref(rel):
+        return "%d %d %d %d" % (rng.choice([0, 1, 9, 65535]), rng.choice([0, 1, 25, 26, 255, 16383]),
+                                int(rel and rng.random() < 0.7), int(rel and rng.random() < 0.7))
+    def xexpr(depth=0):
+        """the value of a name: any expression of C14's grammar; mostly what Excel writes for names"""
+        rel = rng.random() < 0.3
+        r = rng.random()
+        ix = rng.randrange(len(xtis)) if len(xtis) <= 1370 or rng.random() < 0.5 else rng.randrange(1370, len(xtis))
+        if r < 0.25:
+            return "ref3 %s %d %s" % (rng.choice("rva"), ix, xcref(rel))
+        if r < 0.5:
+            return "area3 %s %d %s %s" % (rng.choice("rva"), ix, xcref(rel), xcref(rel))
+        if r < 0.58:
+            return "%s %s %d %s" % (rng.choice([("referr3", 4), ("areaerr3", 8)])[0], rng.choice("rva"), ix, "0.0.0.0") \
+                if rng.random() < 0.5 else "areaerr3 %s %d 0.0.0.0.255.255.0.0" % (rng.choice("rva"), ix)
+        if depth < 2 and r < 0.72:
+            # Print_Titles with rows and columns / a multi-area Print_Area: PtgMemFunc (or PtgMemArea …) + union
+            return "mem %s %s %d bin %d %s %s" % (rng.choice("rva"), rng.choice(["func", "func", "area", "nomem", "err"]),
+                                                  rng.choice([0, 0, 0x17, 0xDEADBEEF]), rng.choice([16, 16, 15, 17]),
+                                                  xexpr(2), xexpr(2))
+        if depth < 2 and len(dn) > 0 and r < 0.82:
+            return "bin %d name %s %d %s" % (rng.choice([3, 5, 8]), rng.choice("rv"), rng.randrange(1, len(dn) + 1), xexpr(depth + 1))
+        if depth < 2 and r < 0.88:
+            return "par " + xexpr(depth + 1)
+        if r < 0.93:
+            s_ = rng.choice(["ab", "a\"b", "é", ""])
+            return "str 0 " + (".".join(str(ord(c_)) for c_ in s_) or "-")
+        if r < 0.97:
+            return "int %d" % rng.choice([0, 1, 42, 65535])
+        return "ref3 %s %d %s" % (rng.choice("rva"), ix, xcref(rel))
     for nm in dn:
-        rel = known_ok and rng.random() < 0.3
-        def cref():
-            return "%d.%d.%d.%d" % (rng.choice([0, 1, 9, 65535]), rng.choice([0, 1, 25, 26, 255, 16383]),
-                                    int(rel and rng.random() < 0.7), int(rel and rng.random() < 0.7))
-        kind = rng.choice(["R", "R", "A", "A", "E", "F"])
-        x = "%s.%s.%d" % (kind, rng.choice("rva"), rng.randrange(len(xtis)))
-        if kind == "R":
-            x += "." + cref()
-        elif kind == "A":
-            x += "." + cref() + "." + cref()
+        x = xexpr()
         wide = 1 if (any(ord(c) > 255 for c in nm) or rng.random() < 0.3) else 0
         # fBuiltin (0x20) goes with a built-in name (stored as its one-character id, MS-XLS 2.5.114)
         flags = rng.choice([0, 1, 0x2000]) | (0x20 if nm.startswith("_xlnm.") and rng.random() < 0.9 else 0)
+        # NameParsedFormula = rgce ++ rgcb: extra data behind the tokens in a quarter of the names (audit 2, XLS-4)
+        rgcb = b""
+        if rng.random() < 0.25:
+            rgcb = rng.choice([struct.pack("<HHHHH", 1, 0, 1, 0, 0), b"\x00\x00\x00\x02\x09\x00\x00x;1234567", b"\x3a",
+                               bytes(rng.randrange(256) for _ in range(rng.randrange(1, 30)))])
         names.append(":".join([hxs(nm), x, str(wide), str(flags), str(rng.choice([0, 65])),
-                               str(rng.choice([0, 1]))]))
+                               str(rng.choice([0, 1])), rgcb.hex() or "-"]))
     style = mg.xls_style_records()
     j0 = rng.choice([[], [(0x00E1, b"\xb0\x04"), (0x005C, b" " * 112)], [(0x013D, b"\x01\x00\x02\x00")]])
     j1 = style + rng.choice([[], [(0x0031, b"\xc8\x00\x00\x00\xff\x7f\x90\x01\x00\x00\x00\x00\x00\x00\x05\x01A\x00r\x00i\x00a\x00l\x00")]])
@@ -309,7 +369,8 @@ def xls_case(rng, cid, known_ok=True):
             j3 = extra + j3
     wb["codepages"] = [struct.unpack("<H", b[:2])[0] for t, b in j0 + j1 + j2 + j3 if t == 0x0042]
     args = [str(int(wb["d1904"])), str(int(rng.random() < 0.5)), recs_wire(j0), recs_wire(j1), recs_wire(j2),
-            recs_wire(j3), tail.hex() or "-", lst(sheets), lst(["%d:%d:%d" % x for x in xtis]), lst(names)]
+            recs_wire(j3), tail.hex() or "-", lst(sheets), lst(["%d:%d:%d" % x for x in xtis]),
+            ".".join(map(str, xcuts)) or "-", lst(names)]
     return {"id": cid, "fmt": "xls", "wb": wb, "line": "%s\tmeta\txls\t%s" % (cid, "\t".join(args)),
             "cells": cells_of}
 
@@ -513,6 +574,14 @@ def run_structured(ctx, cases, tag):
             ctx.count("%s:%s/%s" % (fmt, v, k))
         if c.get("nonconv"):
             ctx.count("%s:sheet-part-outside-its-conventional-folder" % fmt)
+        if c.get("links") and c.get("xtis"):
+            lk = c["links"]
+            first_local = min(i for i, l in enumerate(lk) if l in ("self", "same"))
+            ctx.count("xlsb:externals:links=%s;first_link_to_this_workbook_at_%d" % ("+".join(sorted(set(lk))), first_local))
+            if any(x[0] > 0 and x[0] < len(lk) and lk[x[0]] in ("self", "same") for x in c["xtis"]):
+                ctx.count("xlsb:externals:xti_of_this_workbook_with_link_index>0")
+            if any(l == "addin" for l in lk[:first_local]):
+                ctx.count("xlsb:externals:add-in link before the first link to this workbook")
         if len(c["wb"]["sheets"]) >= 2 or c["wb"]["dnames"]:
             ctx.nontrivial(c["line"].split("\t", 2)[2])
         ctx.sample({"fmt": fmt, "sheets": [list(x) for x in c["wb"]["sheets"]][:3], "impl_equals_model": same(impl, m)})
